@@ -101,4 +101,106 @@ theorem mkImpliesList_strip (t : Term) (h : sigOK t = true) :
   | case2 n T a b hn => simp [mkImpliesList]
   | case3 t ht => simp [mkImpliesList]
 
+/-! ### apply_theorem -/
+
+/-- `pt.implies_elim(*pts)` on sequents -/
+def elimAll : Thm → List Thm → Except RErr Thm
+  | th, [] => .ok th
+  | th, p :: rest =>
+    match Thm.impliesElim th p with
+    | .ok th' => elimAll th' rest
+    | .error e => .error e
+
+theorem substitution_complete (inst : Term.Inst) (p p' : Term)
+    (h : Term.subst inst p = .ok (p', inst.tyinst)) :
+    Thm.substitution inst ⟨[], p⟩ = .ok ⟨[], p'⟩ := by
+  have hi : ({ inst with tyinst := inst.tyinst } : Term.Inst) = inst := by cases inst; rfl
+  simp [Thm.substitution, Thm.substList, Thm.catchTerm, h, hi, Thm.mk', Thm.addTuple, bind, Except.bind]
+
+theorem run_elimSteps (axs : List (String × Thm)) :
+    ∀ (prems : List Thm) (pre : List Thm) (cur : Thm) (j : Nat) (res : List Thm),
+      (∀ m (hm : m < prems.length), pre[j + m]? = some prems[m]) →
+      cur.checkThmTypeSig = true →
+      runScriptAx axs (elimSteps pre.length j prems.length) (pre ++ [cur]) = .ok res →
+      ∃ final, elimAll cur prems = .ok final ∧ res.getLast? = some final ∧ final.checkThmTypeSig = true
+  | [], pre, cur, j, res, _, hc, h => by
+    simp only [List.length_nil, elimSteps, runScriptAx, Except.ok.injEq] at h
+    subst h
+    exact ⟨cur, rfl, by simp, hc⟩
+  | p :: rest, pre, cur, j, res, hp, _, h => by
+    simp only [List.length_cons, elimSteps, runScriptAx] at h
+    have e1 : ("implies_elim" == "theorem" || "implies_elim" == "variable") = false := by decide
+    simp only [e1, Bool.false_eq_true, if_false] at h
+    have hj := hp 0 (by simp)
+    simp only [Nat.add_zero, List.getElem_cons_zero] at hj
+    have hjlt : j < pre.length := (List.getElem?_eq_some_iff.mp hj).1
+    have e2 : lookupPrems (pre ++ [cur]) [pre.length, j] = .ok [cur, p] := by
+      simp [lookupPrems, List.getElem?_append_left hjlt, hj]
+    simp only [e2] at h
+    have e3 : applyRuleAx axs "implies_elim" (.prim .none) [cur, p] = Thm.impliesElim cur p := by
+      have f1 : ("implies_elim" == "theorem") = false := by decide
+      have f2 : ("implies_elim" == "variable") = false := by decide
+      simp [applyRuleAx, f1, f2, applyRule]
+    simp only [checkStepSt, e3] at h
+    cases he : Thm.impliesElim cur p with
+    | error e => simp [he] at h
+    | ok c' =>
+      simp only [he, finishStep] at h
+      by_cases hty : c'.checkThmTypeSig = true
+      · simp only [hty, if_true] at h
+        have hlen : (pre ++ [cur]).length = pre.length + 1 := by simp
+        have hp' : ∀ m (hm : m < rest.length), (pre ++ [cur])[j + 1 + m]? = some rest[m] := by
+          intro m hm
+          have := hp (m + 1) (by simp; omega)
+          simp only [List.getElem_cons_succ] at this
+          have hlt : j + (m + 1) < pre.length := (List.getElem?_eq_some_iff.mp this).1
+          rw [show j + 1 + m = j + (m + 1) by omega, List.getElem?_append_left hlt]
+          exact this
+        obtain ⟨final, hf1, hf2, hf3⟩ :=
+          run_elimSteps axs rest (pre ++ [cur]) c' (j + 1) res hp' hty (by rw [hlen]; exact h)
+        exact ⟨final, by simp [elimAll, he, hf1], hf2, hf3⟩
+      · simp [hty] at h
+
+theorem stripImplies_dest (q a b : Term) (h : Term.destImplies q = some (a, b)) :
+    stripImplies q = (a :: (stripImplies b).1, (stripImplies b).2) := by
+  unfold Term.destImplies Term.destBinop at h
+  split at h
+  · rename_i n T x y
+    split at h
+    · rename_i hn
+      simp only [Option.some.injEq, Prod.mk.injEq] at h
+      obtain ⟨rfl, rfl⟩ := h
+      simp [stripImplies, hn]
+    · simp at h
+  · simp at h
+
+theorem addTuple_nil (l : List Term) : Thm.addTuple [] l = l := by simp [Thm.addTuple]
+
+theorem elimAll_spec : ∀ (prems : List Thm) (cur final : Thm), elimAll cur prems = .ok final →
+    final.hyps = (prems.map (·.hyps)).foldl Thm.addTuple cur.hyps ∧
+    stripImplies final.prop = ((stripImplies cur.prop).1.drop prems.length, (stripImplies cur.prop).2)
+  | [], cur, final, h => by
+    simp only [elimAll, Except.ok.injEq] at h
+    subst h
+    simp
+  | p :: rest, cur, final, h => by
+    simp only [elimAll] at h
+    cases he : Thm.impliesElim cur p with
+    | error e => simp [he] at h
+    | ok c' =>
+      simp only [he] at h
+      obtain ⟨ih1, ih2⟩ := elimAll_spec rest c' final h
+      unfold Thm.impliesElim at he
+      split at he
+      · rename_i a b hd
+        split at he
+        · simp only [Except.ok.injEq] at he
+          subst he
+          simp only [Thm.mk', List.foldl_cons, List.foldl_nil, addTuple_nil] at ih1 ih2
+          refine ⟨by simpa using ih1, ?_⟩
+          rw [ih2, stripImplies_dest _ _ _ hd]
+          simp
+        · simp at he
+      · simp at he
+
 end Holpy.C04.Macro
